@@ -120,6 +120,20 @@ CHECKS = {
 }
 
 _pending = "check not built yet in this session (work in progress, see DESIGN.md section 8)"
+CHECKS["C02"] = dict(
+    text="ParserLoop.tla (the two-token-lookahead machine of core.Parser with a lexer that reports a lone '>' without consuming it) "
+         "and GraphWalk.tla (depth-first walks over file-controlled reference graphs) are implementation-shaped models checked for "
+         "Termination under weak fairness and bounded work; their pinned variants (dropped tokenizer errors, unguarded walks) are "
+         "refuted. Faults.tla is the structural fault catalogue whose Call action admits only the outcomes value and error. TLC "
+         "enumerates every token stream, every 3-node graph and every single fault (thorough: every truncation site, simulated "
+         "double faults) over 8 base documents; each damaged input goes through 11-13 public entry points inside watched child "
+         "processes (deadline, address-space cap), outcomes panic/abort/timeout are violations, and the recorded Call events are "
+         "validated by FaultsTrace.tla.",
+    design_ref="4.2",
+    note=TB + " Coverage-guided byte mutation is not done (different technique); a dead or stalled child is attributed to the case it announced last.",
+    technique="TLA+ liveness models of the parse loops and walks + fault-catalogue contract, TLC enumeration, watched-process replay, trace validation",
+)
+
 CHECKS["C20"] = dict(
     text="Admission.tla holds the decision tables: content detection independent of ZIP member order and unreferenced decoy parts, "
          "admission by own extension in any letter case, refusal under another supported extension, and the EPUB DRM table (rights "
